@@ -150,6 +150,15 @@ func main() {
 		for _, o := range s.Obs {
 			fmt.Println(o.V, o.Rule, o.Key, o.Detail)
 		}
+	case "i":
+		rules.I12(rc)
+		rules.I3(rc)
+		rules.I4(rc)
+		rules.I5(rc)
+		rules.I6(rc)
+		for _, o := range s.Obs {
+			fmt.Println(o.V, o.Rule, o.Key, o.Detail)
+		}
 	case "k1w":
 		rules.K1w(rc, nil, 0)
 		for _, o := range s.Obs {
